@@ -1,5 +1,5 @@
 // ================= trusted prelude (unit U-rid): what RecordIdentifier needs from bytes / std =================
-// (included after prelude/bytes.rs and prelude/ids.rs; adds to the `Bytes` shell, does not replace it)
+// (needs prelude/bytes.rs, prelude/ids.rs and spec/bytes.rs (`all_zero`); adds to the `Bytes` shell, does not replace it)
 use std::ops::{Index, Range, RangeFrom};
 use vstd::std_specs::core::IndexSpecImpl;
 
@@ -95,3 +95,38 @@ pub broadcast proof fn axiom_rid_arr32_try_into(v: &[u8])
 pub broadcast proof fn axiom_rid_arr32ref_try_into(v: &[u8])
     ensures (#[trigger] <&[u8] as vstd::std_specs::convert::TryIntoSpec<&[u8; 32]>>::try_into_spec(v)) == rid_arr32ref_try_from(v)
 {}
+
+// ---- `key.as_ref()` for `key: &[u8]` (the `impl AsRef<[u8]>` parameter of RecordIdentifier::new made concrete):
+//      std `impl<T> AsRef<[T]> for [T] { fn as_ref(&self) -> &[T] { self } }` ----
+pub assume_specification<T> [ <[T] as AsRef<[T]>>::as_ref ] (s: &[T]) -> (r: &[T])
+    ensures r@ == s@;
+/// Rust guarantee for every slice (std::slice::from_raw_parts safety contract): "The total size
+/// `len * size_of::<T>()` of the slice must be no larger than `isize::MAX`"
+#[verifier::external_body]
+pub proof fn axiom_rid_slice_len_bound(s: &[u8])
+    ensures s@.len() <= isize::MAX
+{}
+
+// ---- `x.into()` for `x: NamespaceId` / `AuthorId` where `impl Into<NamespaceId>` / `impl Into<AuthorId>` is
+//      expected (the instantiation every call site of RecordIdentifier::new in the crate uses): std's
+//      `impl<T> From<T> for T { fn from(t: T) -> T { t } }` through `impl<T, U: From<T>> Into<U> for T`.
+//      vstd gives no spec to the reflexive impl (FromSpecImpl cannot be written for it), hence two axioms. ----
+#[verifier::external_body]
+pub proof fn axiom_rid_into_refl()
+    ensures
+        <NamespaceId as vstd::std_specs::convert::IntoSpec<NamespaceId>>::obeys_into_spec(),
+        forall|n: NamespaceId| #[trigger] vstd::std_specs::convert::IntoSpec::<NamespaceId>::into_spec(n) == n,
+        <AuthorId as vstd::std_specs::convert::IntoSpec<AuthorId>>::obeys_into_spec(),
+        forall|a: AuthorId| #[trigger] vstd::std_specs::convert::IntoSpec::<AuthorId>::into_spec(a) == a,
+{}
+
+// ---- `#[derive(Default)]` on `struct NamespaceId([u8; 32])` / `struct AuthorId([u8; 32])` (src/keys.rs):
+//      `[u8; 32]::default()` is all zero ----
+impl Default for NamespaceId {
+    #[verifier::external_body]
+    fn default() -> (r: NamespaceId) ensures all_zero(r.0@) { unimplemented!() }
+}
+impl Default for AuthorId {
+    #[verifier::external_body]
+    fn default() -> (r: AuthorId) ensures all_zero(r.0@) { unimplemented!() }
+}
